@@ -445,6 +445,13 @@ func (p *Packer) Unpack(r io.Reader, dst string) error {
 		}
 
 		if info.IsDirectory() {
+			// Create the directory itself. Only its parents have been made
+			// so far, so a directory entry without any children would
+			// otherwise never be materialised.
+			if err := os.MkdirAll(info.Path, 0755); err != nil {
+				return fmt.Errorf("failed to create directory %q: %w", info.Path, err)
+			}
+
 			// Restore directory info after all files are extracted because
 			// the extraction process changes directory's timestamps.
 			directoriesExtracted = append(directoriesExtracted, info)
